@@ -7,7 +7,7 @@ from sa.cfg import cfg_of
 from sa.flow import show, sig, subterms
 from sa.model import AnalysisError, norm, parent, walk_no_nested
 
-from .common import alts, callers_of, class_with_code, commands, is_call, is_const, is_plain_iter, need, prov, raised_class, unshipped_modules
+from .common import include_rules, alts, callers_of, class_with_code, commands, is_call, is_const, is_plain_iter, need, prov, raised_class, unshipped_modules
 
 ACTIONS = {"original", "verified", "failed", "new"}
 SPEC_TABLE = {
@@ -365,6 +365,9 @@ def run(report, p):
         r7.check(False, seal, seal.node, "the sealer chooses the formats to generate from 'requested ∩ recorded, else the first recorded format', the validator demands the format of the first 'original' entry: "
                  "e.g. `-h md5 -h xxh64` then `-h xxh64 -h sha1` on an untouched file aborts with AssertionError('no hash entry found for new hash')", construct="sealer never generates the validator's reference format")
 
+    # ---- rules shared with other properties (same mechanism, same rule, reported under every property it can break)
+    include_rules(report, p, 'c08', ['R8.1'], 'the first recorded value is looked up in the history that owns the path')
+    include_rules(report, p, 'c01', ['R1.1'], 'the compared digest must cover the whole file')
     report.not_decided += ["behaviour over concrete generation sequences", "that the reference format's digest is recomputed correctly (C01)"]
 
 
